@@ -115,6 +115,9 @@ type hashList struct {
 type SPDX3 struct{}
 
 func (spdx3 *SPDX3) Serialize(bom *sbom.Document, _ *native.SerializeOptions, _ interface{}) (interface{}, error) {
+	if bom == nil || bom.NodeList == nil {
+		return nil, errors.New("document has no node list, unable to serialize to SPDX 3")
+	}
 	now := time.Now()
 	spdxSBOM := sbomType{
 		Type: "Sbom",
